@@ -138,9 +138,19 @@ pub fn run_all(out: &str, seed: u64, profile: &str, thorough: bool) {
                 emit(json!({"ev":"scn","cfg":format!("{profile}/{lname}/{rname}"),"sid":sid,"out":outv}));
             }
             // ---- decode scenarios for the same block: fixed ESI sets (incl. one too small and one repair-only)
-            let enc = SourceBlockEncoder::new(0, &cfg, &data);
-            let src = enc.source_packets();
-            let rep = { let mut r = enc.repair_packets(0, (k + 4) as u32); r.extend(enc.repair_packets(far, 3)); r };
+            let prep = catch(|| {
+                let enc = SourceBlockEncoder::new(0, &cfg, &data);
+                let src = enc.source_packets();
+                let rep = { let mut r = enc.repair_packets(0, (k + 4) as u32); r.extend(enc.repair_packets(far, 3)); r };
+                (src, rep)
+            });
+            let (src, rep) = match prep {
+                Ok(x) => x,
+                Err(m) => {
+                    emit(json!({"ev":"scn","cfg":format!("{profile}/{lname}/new"),"sid":format!("dec-prepare:K={k}:T={t}"),"out":{"res":"panic","msg":m}}));
+                    continue;
+                }
+            };
             let sets: Vec<(&str, Vec<EncodingPacket>)> = vec![
                 ("drop1", src.iter().skip(1).cloned().chain(rep.iter().take(1).cloned()).collect()),
                 ("drophalf+2", src.iter().step_by(2).cloned().chain(rep.iter().take(k - k.div_ceil(2) + 2).cloned()).collect()),
